@@ -189,10 +189,17 @@ Proof. destruct v; unfold all_DataType; all_in. Qed.
 Lemma table_ok_DataType_true : table_ok_DataType = true.
 Proof. vm_compute. reflexivity. Qed.
 
-Lemma dec_enc_Operator : forall v : Operator, dec_Operator (enc_Operator v) = Some v.
-Proof. destruct v; reflexivity. Qed.
+(* Operator: the listed variants (known findings) have no decode arm; every other variant round-trips *)
+Lemma dec_enc_Operator : forall v : Operator, good_Operator v = true -> dec_Operator (enc_Operator v) = Some v.
+Proof. destruct v; intros H; first [reflexivity | discriminate H]. Qed.
+Lemma dec_enc_Operator_refuted : exists v : Operator, dec_Operator (enc_Operator v) = None.
+Proof. exists Operator_Arrow. reflexivity. Qed.
+Lemma known_bad_Operator_undecodable : forall v : Operator, good_Operator v = false -> dec_Operator (enc_Operator v) = None.
+Proof. destruct v; intros H; first [reflexivity | discriminate H]. Qed.
+Lemma eqb_Operator_true : forall a b : Operator, eqb_Operator a b = true -> a = b.
+Proof. destruct a; destruct b; intros H; first [reflexivity | discriminate H]. Qed.
 Lemma enc_injective_Operator : forall a b : Operator, enc_Operator a = enc_Operator b -> a = b.
-Proof. exact (dec_enc_injective enc_Operator dec_Operator dec_enc_Operator). Qed.
+Proof. destruct a; destruct b; intros H; first [reflexivity | discriminate H]. Qed.
 Lemma all_Operator_complete : forall v : Operator, In v all_Operator.
 Proof. destruct v; unfold all_Operator; all_in. Qed.
 Lemma table_ok_Operator_true : table_ok_Operator = true.
